@@ -249,9 +249,8 @@ pub fn specs(tier: Tier) -> Vec<GenSpec> {
 pub fn run(tier: Tier) -> i32 {
     let info = RunInfo::new("C05", tier);
     let specs = specs(tier);
-    let counter = std::sync::atomic::AtomicU64::new(0);
     let st = par_enumerate(&specs, |_spec, net, st| {
-        let idx = counter.fetch_add(1, std::sync::atomic::Ordering::Relaxed);
+        let idx = net.hash_idx();
         for_net(net, tier, idx, st);
         if net.n == 4 && net.m() == 3 {
             st.sample(1, || json!({"net": net, "note": "run with every restriction set of the alphabet, 3-6 algorithms, both directions, vertex and edge orientation, with and without destination"}));
